@@ -864,7 +864,27 @@ def lift_one(d, repo, canary=False, rename_suffix=None):
         names_o = [re.sub(r'[:].*', '', x).strip().lstrip('&').replace('mut ', '').strip() for x in orig_params.split(',') if x.strip()]
         params = kv.get('params', orig_params)
         names_n = [re.sub(r'[:].*', '', x, flags=re.S).strip() for x in split_params(params)]
-        if [n.replace('mut ', '') for n in names_n] != names_o and 'params' in kv and not kv.get('renames'):
+        destr = kv.get('destructure')
+        destr_pat = None
+        if destr:
+            # `|PAT: TY, rest..|` with a tuple/struct pattern (not supported as a closure parameter by this Verus) becomes
+            # `|<destr>: TY', rest..| { let PAT = <destr>; ..` -- the same binding, one statement later (cf. R10)
+            first = split_params(orig_params)[0]
+            depth, cut = 0, -1
+            for ix, ch in enumerate(first):
+                if ch in '([{<':
+                    depth += 1
+                elif ch in ')]}>':
+                    depth -= 1
+                elif ch == ':' and depth == 0:
+                    cut = ix
+                    break
+            destr_pat = (first[:cut] if cut >= 0 else first).strip()
+            if not destr_pat.startswith('('):
+                raise LiftError("%s: closure destructure: first parameter %r is not a tuple pattern" % (info['name'], first))
+            if names_n[0] != destr:
+                raise LiftError("%s: closure destructure: params must start with %s" % (info['name'], destr))
+        elif [n.replace('mut ', '') for n in names_n] != names_o and 'params' in kv and not kv.get('renames'):
             raise LiftError("%s: closure params %r do not match source %r" % (info['name'], params, orig_params))
         # body extent
         j = q + 1
@@ -884,7 +904,11 @@ def lift_one(d, repo, canary=False, rename_suffix=None):
         clause = '\n'.join(lines)
         ret = kv.get('ret', '')
         pre = '|%s|%s\n%s\n' % (params, (' -> ' + ret) if ret else '', clause)
+        if destr_pat is not None and not has_block:
+            raise LiftError("%s: closure destructure needs a block body" % info['name'])
         if has_block:
+            if destr_pat is not None:
+                body.insert(j + 1, ' let %s = %s;' % (destr_pat, destr))
             body.replace(p, j, pre)
         else:
             body.insert(be, ' }')
